@@ -934,4 +934,435 @@ theorem step_kings (hwf : WfP b) (ha : ArgsOK b src tgt piece castle ep promo ep
 
 end
 
+/-! ## (3) no pawn on the first or last rank -/
+
+theorem rank18_mid : ∀ t, t < 64 → 8 ≤ t → t < 56 → testU rank18U t = false := by decide
+
+/-- no pawn of the side stands on rank 1 or 8 -/
+def PawnOK (s : Side) : Prop := ∀ t, t < 64 → testU rank18U t = true → testU s.pawns t = false
+
+theorem pawnOK_iff (w k : Side) : (w.pawns ||| k.pawns) &&& rank18U = 0 ↔ PawnOK w ∧ PawnOK k := by
+  rw [Bits.and_eq_zero_iff]
+  constructor
+  · intro h
+    constructor
+    · intro t ht hr
+      cases hb : testU w.pawns t
+      · rfl
+      · exact absurd ⟨by rw [Bits.testU_or, hb]; rfl, hr⟩ (h t ht)
+    · intro t ht hr
+      cases hb : testU k.pawns t
+      · rfl
+      · exact absurd ⟨by rw [Bits.testU_or, hb, Bool.or_true], hr⟩ (h t ht)
+  · rintro ⟨hw, hk⟩ t ht ⟨h1, h2⟩
+    rw [Bits.testU_or, hw t ht h2, hk t ht h2] at h1
+    cases h1
+
+section
+variable {b : Board} {src tgt piece : Nat} {castle ep : Bool} {promo epOpp : Nat}
+
+/-- a pawn is only ever added on ranks 2..7 -/
+theorem addA_pawn (ha : ArgsOK b src tgt piece castle ep promo epOpp) {t : Nat}
+    (h : addA (mkF b src tgt piece castle ep promo epOpp) 1 t = true) : 8 ≤ t ∧ t < 56 := by
+  unfold addA at h
+  simp only [mkF_castle, mkF_ep, mkF_promo, mkF_piece, mkF_target] at h
+  cases hca : castle
+  · cases hep : ep
+    · by_cases hpr : (promo != NO_PIECE) = true
+      · have hp2 := (ha.promo_ (by simpa [NO_PIECE] using hpr)).2.1
+        simp only [hca, hep, hpr, Bool.false_eq_true, if_false, if_true, Bool.and_eq_true, beq_iff_eq] at h
+        omega
+      · simp only [hca, hep, hpr, Bool.false_eq_true, if_false, Bool.and_eq_true, beq_iff_eq] at h
+        have hpz : promo = 0 := by simpa [NO_PIECE] using hpr
+        rw [h.2]
+        exact ha.pawnMid h.1.symm hpz
+    · simp only [hca, hep, Bool.false_eq_true, if_false, if_true, Bool.and_eq_true, beq_iff_eq] at h
+      obtain ⟨-, -, -, -, -, h8, h56⟩ := ha.ep_ hep
+      rw [h.2]; exact ⟨h8, h56⟩
+  · obtain ⟨-, -, -, -, -, rs, rt, hcr, -⟩ := ha.castle_ hca
+    simp [hca, hcr, KING, ROOK] at h
+
+/-- **(3)** no pawn on rank 1 or 8 after the move -/
+theorem step_pawns (ha : ArgsOK b src tgt piece castle ep promo epOpp) (hpa : PawnOK b.active) (hpp : PawnOK b.passive) :
+    PawnOK (mkMover (mkF b src tgt piece castle ep promo epOpp) b.active) ∧
+    PawnOK (mkOther (mkF b src tgt piece castle ep promo epOpp) b.whiteTurn b.passive) := by
+  have hua := upd_mover ha
+  have hup := upd_other ha
+  constructor
+  · intro t ht hr
+    cases hb : testU (mkMover (mkF b src tgt piece castle ep promo epOpp) b.active).pawns t
+    · rfl
+    · exfalso
+      cases hadd : addA (mkF b src tgt piece castle ep promo epOpp) 1 t
+      · have := (hua.sub (q := 1) (by decide) (by decide) ht hb hadd).1
+        rw [show b.active.get 1 = b.active.pawns from rfl, hpa t ht hr] at this; cases this
+      · obtain ⟨h8, h56⟩ := addA_pawn ha hadd
+        rw [rank18_mid t ht h8 h56] at hr; cases hr
+  · intro t ht hr
+    cases hb : testU (mkOther (mkF b src tgt piece castle ep promo epOpp) b.whiteTurn b.passive).pawns t
+    · rfl
+    · exfalso
+      have := (hup.sub (q := 1) (by decide) (by decide) ht hb rfl).1
+      rw [show b.passive.get 1 = b.passive.pawns from rfl, hpp t ht hr] at this; cases this
+
+end
+
+/-! ## (5) a castling right implies king and rook on their home squares -/
+
+/-- castling rights of a side with home squares `e` (king), `rk` (king-side rook), `rq` (queen-side rook) -/
+def RightsOK (s : Side) (e rk rq : Nat) : Prop :=
+  (s.ks = true → testU s.kings e = true ∧ testU s.rooks rk = true) ∧
+  (s.qs = true → testU s.kings e = true ∧ testU s.rooks rq = true)
+
+theorem rights_iff (s : Side) (e rk rq : Nat) :
+    ((!s.ks || (testU s.kings e && testU s.rooks rk)) = true ∧ (!s.qs || (testU s.kings e && testU s.rooks rq)) = true) ↔
+      RightsOK s e rk rq := by
+  unfold RightsOK
+  cases s.ks <;> cases s.qs <;> simp
+
+theorem ks_set (s : Side) (p : Nat) (v : UInt64) : (s.set p v).ks = s.ks := by
+  rcases p with _|_|_|_|_|_|_|p <;> rfl
+theorem qs_set (s : Side) (p : Nat) (v : UInt64) : (s.set p v).qs = s.qs := by
+  rcases p with _|_|_|_|_|_|_|p <;> rfl
+
+theorem mkMover_ks (f : MoveF) (s : Side) : (mkMover f s).ks = (if f.selfLostKing then false else s.ks) := by
+  unfold mkMover dropRights
+  cases f.castle <;> cases f.enPassant <;> cases (f.promotion != NO_PIECE) <;> cases castleRook f.target <;>
+    simp only [Bool.false_eq_true, if_false, if_true, ks_set]
+
+theorem mkMover_qs (f : MoveF) (s : Side) : (mkMover f s).qs = (if f.selfLostQueen then false else s.qs) := by
+  unfold mkMover dropRights
+  cases f.castle <;> cases f.enPassant <;> cases (f.promotion != NO_PIECE) <;> cases castleRook f.target <;>
+    simp only [Bool.false_eq_true, if_false, if_true, qs_set]
+
+theorem mkOther_ks (f : MoveF) (w : Bool) (s : Side) : (mkOther f w s).ks = (if f.oppLostKing then false else s.ks) := by
+  unfold mkOther dropRights
+  cases f.castle <;> cases f.enPassant <;> simp only [Bool.false_eq_true, if_false, if_true, ks_set]
+
+theorem mkOther_qs (f : MoveF) (w : Bool) (s : Side) : (mkOther f w s).qs = (if f.oppLostQueen then false else s.qs) := by
+  unfold mkOther dropRights
+  cases f.castle <;> cases f.enPassant <;> simp only [Bool.false_eq_true, if_false, if_true, qs_set]
+
+/-- outside castling only the source square of the mover loses a piece -/
+theorem remA_source {f : MoveF} {q t : Nat} (h : remA f q t = true) (hc : f.castle = false) : t = f.source := by
+  unfold remA at h
+  simp only [hc, Bool.false_eq_true, if_false] at h
+  split at h
+  · simp only [Bool.and_eq_true, beq_iff_eq] at h; exact h.2
+  · split at h <;> (simp only [Bool.and_eq_true, beq_iff_eq] at h; exact h.2)
+
+/-- the other side loses a pawn (en passant) or the piece on the target -/
+theorem remP_target {f : MoveF} {w : Bool} {q t : Nat} (h : remP f w q t = true) : q = PAWN ∨ t = f.target := by
+  unfold remP at h
+  split at h
+  · cases h
+  · split at h
+    · simp only [Bool.and_eq_true, beq_iff_eq] at h; exact Or.inl h.1
+    · simp only [Bool.and_eq_true, beq_iff_eq] at h; exact Or.inr h.2
+
+section
+variable {b : Board} {src tgt piece : Nat} {castle ep : Bool} {promo epOpp : Nat}
+
+theorem remP_king (hwf : WfP b) (ha : ArgsOK b src tgt piece castle ep promo epOpp) (t : Nat) :
+    remP (mkF b src tgt piece castle ep promo epOpp) b.whiteTurn 6 t = false := by
+  have hne := attacked_ne_king hwf ha
+  unfold remP
+  simp only [mkF_castle, mkF_ep, mkF_target]
+  cases castle
+  · cases ep
+    · simp only [Bool.false_eq_true, if_false]
+      have : ((6 : Nat) == (mkF b src tgt piece false false promo epOpp).pieceAttacked) = false := by
+        rw [beq_eq_false_iff_ne]; exact fun e => hne e.symm
+      simp [this]
+    · simp [PAWN]
+  · simp
+
+/-- **(5, mover)** the mover's remaining castling rights still have king and rook at home -/
+theorem step_rights_mover (ha : ArgsOK b src tgt piece castle ep promo epOpp)
+    (hr : RightsOK b.active (E1 - dCastle b) (H1 - dCastle b) (A1 - dCastle b)) :
+    RightsOK (mkMover (mkF b src tgt piece castle ep promo epOpp) b.active)
+      (E1 - dCastle b) (H1 - dCastle b) (A1 - dCastle b) := by
+  have hua := upd_mover ha
+  have hd : dCastle b = 0 ∨ dCastle b = 56 := by unfold dCastle; split <;> simp
+  -- a king or rook that is not on the source square stays
+  have keepK : src ≠ E1 - dCastle b → testU b.active.kings (E1 - dCastle b) = true →
+      testU (mkMover (mkF b src tgt piece castle ep promo epOpp) b.active).kings (E1 - dCastle b) = true := by
+    intro hne hb
+    refine hua.keep (q := 6) (by decide) (by decide) (by unfold E1; omega) hb ?_
+    rcases king_upd ha with ⟨-, hk⟩ | hk
+    · rw [(hk _).1, beq_eq_false_iff_ne]; exact fun e => hne e.symm
+    · exact (hk _).1
+  have keepR : ∀ r, r < 64 → src ≠ E1 - dCastle b → src ≠ r → testU b.active.rooks r = true →
+      testU (mkMover (mkF b src tgt piece castle ep promo epOpp) b.active).rooks r = true := by
+    intro r hr64 hneE hne hb
+    refine hua.keep (q := 4) (by decide) (by decide) hr64 hb ?_
+    cases hrem : remA (mkF b src tgt piece castle ep promo epOpp) 4 r
+    · rfl
+    · exfalso
+      cases hca : castle
+      · have := remA_source hrem (by simp [hca])
+        simp only [mkF_source] at this
+        exact hne this.symm
+      · exact hneE (ha.castle_ hca).2.2.2.2.1
+  constructor
+  · intro h
+    rw [mkMover_ks] at h
+    have hsl : (mkF b src tgt piece castle ep promo epOpp).selfLostKing =
+        (b.active.ks && (src == H1 - dCastle b || src == E1 - dCastle b)) := rfl
+    rw [hsl] at h
+    cases hks : b.active.ks
+    · simp [hks] at h
+    · simp only [hks, Bool.true_and] at h
+      have hne : (src == H1 - dCastle b || src == E1 - dCastle b) = false := by
+        cases hx : (src == H1 - dCastle b || src == E1 - dCastle b)
+        · rfl
+        · simp [hx] at h
+      simp only [Bool.or_eq_false_iff, beq_eq_false_iff_ne] at hne
+      obtain ⟨hk, hrk⟩ := hr.1 hks
+      exact ⟨keepK hne.2 hk, keepR _ (by unfold H1; omega) hne.2 hne.1 hrk⟩
+  · intro h
+    rw [mkMover_qs] at h
+    have hsl : (mkF b src tgt piece castle ep promo epOpp).selfLostQueen =
+        (b.active.qs && (src == A1 - dCastle b || src == E1 - dCastle b)) := rfl
+    rw [hsl] at h
+    cases hqs : b.active.qs
+    · simp [hqs] at h
+    · simp only [hqs, Bool.true_and] at h
+      have hne : (src == A1 - dCastle b || src == E1 - dCastle b) = false := by
+        cases hx : (src == A1 - dCastle b || src == E1 - dCastle b)
+        · rfl
+        · simp [hx] at h
+      simp only [Bool.or_eq_false_iff, beq_eq_false_iff_ne] at hne
+      obtain ⟨hk, hrk⟩ := hr.2 hqs
+      exact ⟨keepK hne.2 hk, keepR _ (by unfold A1; omega) hne.2 hne.1 hrk⟩
+
+/-- **(5, other side)** the other side's remaining castling rights still have king and rook at home -/
+theorem step_rights_other (hwf : WfP b) (ha : ArgsOK b src tgt piece castle ep promo epOpp)
+    (hr : RightsOK b.passive (E8 + dCastle b) (H8 + dCastle b) (A8 + dCastle b)) :
+    RightsOK (mkOther (mkF b src tgt piece castle ep promo epOpp) b.whiteTurn b.passive)
+      (E8 + dCastle b) (H8 + dCastle b) (A8 + dCastle b) := by
+  have hup := upd_other ha
+  have hd : dCastle b = 0 ∨ dCastle b = 56 := by unfold dCastle; split <;> simp
+  have keepK : testU b.passive.kings (E8 + dCastle b) = true →
+      testU (mkOther (mkF b src tgt piece castle ep promo epOpp) b.whiteTurn b.passive).kings (E8 + dCastle b) = true := by
+    intro hb
+    exact hup.keep (q := 6) (by decide) (by decide) (by unfold E8; omega) hb (remP_king hwf ha _)
+  have keepR : ∀ r, r < 64 → tgt ≠ r → testU b.passive.rooks r = true →
+      testU (mkOther (mkF b src tgt piece castle ep promo epOpp) b.whiteTurn b.passive).rooks r = true := by
+    intro r hr64 hne hb
+    refine hup.keep (q := 4) (by decide) (by decide) hr64 hb ?_
+    cases hrem : remP (mkF b src tgt piece castle ep promo epOpp) b.whiteTurn 4 r
+    · rfl
+    · exfalso
+      rcases remP_target hrem with h | h
+      · exact absurd h (by decide)
+      · simp only [mkF_target] at h; exact hne h.symm
+  have hq : (mkF b src tgt piece castle ep promo epOpp).oppLostQueen = (b.passive.qs && tgt == A8 + dCastle b) := rfl
+  have hk : (mkF b src tgt piece castle ep promo epOpp).oppLostKing =
+      (!(b.passive.qs && tgt == A8 + dCastle b) && b.passive.ks && tgt == H8 + dCastle b) := rfl
+  constructor
+  · intro h
+    rw [mkOther_ks, hk] at h
+    cases hks : b.passive.ks
+    · simp [hks] at h
+    · have hne : tgt ≠ H8 + dCastle b := by
+        intro e
+        simp [hks, e] at h
+        exact absurd h.2 (by decide)
+      obtain ⟨hkk, hrk⟩ := hr.1 hks
+      exact ⟨keepK hkk, keepR _ (by unfold H8; omega) hne hrk⟩
+  · intro h
+    rw [mkOther_qs, hq] at h
+    cases hqs : b.passive.qs
+    · simp [hqs] at h
+    · have hne : tgt ≠ A8 + dCastle b := by
+        intro e
+        simp [hqs, e] at h
+      obtain ⟨hkk, hrk⟩ := hr.2 hqs
+      exact ⟨keepK hkk, keepR _ (by unfold A8; omega) hne hrk⟩
+
+end
+
+/-! ## (6) the e.p. square of the new board -/
+
+theorem epOK_of (c : Board)
+    (h : c.ep = 0 ∨
+      (c.turn = 0 ∧ c.ep / 8 = 2 ∧ testU c.black.pawns (c.ep + 8) = true ∧
+        testU (c.white.full ||| c.black.full) c.ep = false ∧ testU (c.white.full ||| c.black.full) (c.ep - 8) = false) ∨
+      (c.turn ≠ 0 ∧ c.ep / 8 = 5 ∧ testU c.white.pawns (c.ep - 8) = true ∧
+        testU (c.white.full ||| c.black.full) c.ep = false ∧ testU (c.white.full ||| c.black.full) (c.ep + 8) = false)) :
+    epOK c = true := by
+  unfold epOK
+  rcases h with h | ⟨h1, h2, h3, h4, h5⟩ | ⟨h1, h2, h3, h4, h5⟩
+  · simp [h]
+  · simp [h1, h2, h3, h4, h5]
+  · have : (c.turn == 0) = false := by simpa using h1
+    simp [this, h2, h3, h4, h5]
+
+theorem full_false_of_get {s : Side} {t : Nat} (h : ∀ q, 1 ≤ q → q ≤ 6 → testU (s.get q) t = false) :
+    testU s.full t = false := by
+  rw [testU_full, h 1 (by decide) (by decide), h 2 (by decide) (by decide), h 3 (by decide) (by decide),
+    h 4 (by decide) (by decide), h 5 (by decide) (by decide), h 6 (by decide) (by decide)]
+  rfl
+
+section
+variable {b : Board} {src tgt piece : Nat} {castle ep : Bool} {promo epOpp : Nat}
+
+/-- after a double push: the pawn stands on the target, the skipped square and the origin are empty -/
+theorem step_ep (hwf : WfP b) (ha : ArgsOK b src tgt piece castle ep promo epOpp) (hne : epOpp ≠ 0) :
+    testU (mkMover (mkF b src tgt piece castle ep promo epOpp) b.active).pawns tgt = true ∧
+    testU (mkMover (mkF b src tgt piece castle ep promo epOpp) b.active).full epOpp = false ∧
+    testU (mkOther (mkF b src tgt piece castle ep promo epOpp) b.whiteTurn b.passive).full epOpp = false ∧
+    testU (mkMover (mkF b src tgt piece castle ep promo epOpp) b.active).full src = false ∧
+    testU (mkOther (mkF b src tgt piece castle ep promo epOpp) b.whiteTurn b.passive).full src = false ∧
+    (if b.whiteTurn then 48 ≤ src ∧ src < 56 ∧ tgt + 16 = src ∧ epOpp + 8 = src
+     else 8 ≤ src ∧ src < 16 ∧ tgt = src + 16 ∧ epOpp = src + 8) := by
+  obtain ⟨hpc, hca, hep, hpr, hl1, hl2, hgeo⟩ := ha.dbl hne
+  subst hpc hca hep hpr
+  obtain ⟨hsa, hsp, hcr⟩ := sd_sides hwf
+  have hua := upd_mover ha
+  have hup := upd_other ha
+  have hadd : ∀ q t, addA (mkF b src tgt PAWN false false 0 epOpp) q t = (q == PAWN && t == tgt) := by
+    intro q t; unfold addA; simp [NO_PIECE]
+  have hrem : ∀ q t, remA (mkF b src tgt PAWN false false 0 epOpp) q t = (q == PAWN && t == src) := by
+    intro q t; unfold remA; simp [NO_PIECE]
+  have hne1 : epOpp ≠ tgt ∧ src ≠ tgt := by
+    split at hgeo <;> omega
+  have hS : testU (b.active.get 1) src = true := (has_iff_testU ha.src_lt).mp ha.hasSrc
+  have hE : testU (fullOcc b) epOpp = false := (lacks_iff_testU ha.epOpp_lt).mp hl1
+  rw [testU_fullOcc, Bool.or_eq_false_iff] at hE
+  refine ⟨?_, ?_, ?_, ?_, ?_, hgeo⟩
+  · have := hua 1 (by decide) (by decide) tgt ha.tgt_lt
+    rw [hadd] at this
+    show testU ((mkMover (mkF b src tgt PAWN false false 0 epOpp) b.active).get 1) tgt = true
+    rw [this]; simp [PAWN]
+  · apply full_false_of_get
+    intro q h1 h6
+    rw [hua q h1 h6 epOpp ha.epOpp_lt, hadd, get_false_of_full hE.1 h1 h6]
+    have : (epOpp == tgt) = false := by rw [beq_eq_false_iff_ne]; exact hne1.1
+    simp [this]
+  · apply full_false_of_get
+    intro q h1 h6
+    cases hb : testU ((mkOther (mkF b src tgt PAWN false false 0 epOpp) b.whiteTurn b.passive).get q) epOpp
+    · rfl
+    · have := (hup.sub h1 h6 ha.epOpp_lt hb rfl).1
+      rw [get_false_of_full hE.2 h1 h6] at this; cases this
+  · apply full_false_of_get
+    intro q h1 h6
+    rw [hua q h1 h6 src ha.src_lt, hadd, hrem]
+    have e1 : (src == tgt) = false := by rw [beq_eq_false_iff_ne]; exact hne1.2
+    by_cases hq : q = 1
+    · subst hq; simp [PAWN, e1]
+    · have : testU (b.active.get q) src = false := by
+        cases hb : testU (b.active.get q) src
+        · rfl
+        · exact absurd ⟨hb, hS⟩ (hsa q 1 h1 h6 (by decide) (by decide) hq src ha.src_lt)
+      simp [this, e1]
+  · apply full_false_of_get
+    intro q h1 h6
+    cases hb : testU ((mkOther (mkF b src tgt PAWN false false 0 epOpp) b.whiteTurn b.passive).get q) src
+    · rfl
+    · have := (hup.sub h1 h6 ha.src_lt hb rfl).1
+      exact absurd ⟨hS, this⟩ (hcr 1 q (by decide) (by decide) h1 h6 src ha.src_lt)
+
+end
+
+/-! ## assembly: the new board is well-formed -/
+
+theorem rights_of_wf_w {b : Board} (hwf : WfP b) : RightsOK b.white E1 H1 A1 :=
+  (rights_iff b.white E1 H1 A1).mp ⟨hwf.wks, hwf.wqs⟩
+theorem rights_of_wf_b {b : Board} (hwf : WfP b) : RightsOK b.black E8 H8 A8 :=
+  (rights_iff b.black E8 H8 A8).mp ⟨hwf.bks, hwf.bqs⟩
+
+/-- **WF step (unbudgeted part + clocks from the budget)** for a move described by `ArgsOK` -/
+theorem make_wfP {b : Board} (hwf : WfP b) {src tgt piece : Nat} {castle ep : Bool} {promo epOpp : Nat}
+    (ha : ArgsOK b src tgt piece castle ep promo epOpp)
+    (hv : isValid (makeF b (mkF b src tgt piece castle ep promo epOpp)) = true)
+    (hhm : b.halfmove + 1 ≤ 4095) (hfm : b.fullmove + 1 < 2147483648) :
+    WfP (makeF b (mkF b src tgt piece castle ep promo epOpp)) := by
+  have hdisj := step_disj hwf ha
+  have hpw := (pawnOK_iff b.white b.black).mp hwf.pawns
+  have hfm1 := hwf.fm1
+  have htn1 := hwf.turn
+  rw [BoardCongr.makeF_eq] at hv ⊢
+  rcases sides_of_turn b hwf.turn with ⟨hw, htn, hact, hpas⟩ | ⟨hw, htn, hact, hpas⟩
+  · -- white moves
+    have hd : dCastle b = 0 := by simp [dCastle, hw]
+    have hk := step_kings hwf ha (by rw [hact]; exact hwf.wk) (by rw [hpas]; exact hwf.bk)
+    have hp := step_pawns ha (by rw [hact]; exact hpw.1) (by rw [hpas]; exact hpw.2)
+    have hra := step_rights_mover ha (by rw [hact, hd]; exact rights_of_wf_w hwf)
+    have hrp := step_rights_other hwf ha (by rw [hpas, hd]; exact rights_of_wf_b hwf)
+    rw [hd] at hra hrp
+    simp only [hw, if_true] at hv ⊢
+    rw [hw] at hdisj hk hp hrp
+    obtain ⟨hra1, hra2⟩ := (rights_iff _ E1 H1 A1).mpr hra
+    obtain ⟨hrp1, hrp2⟩ := (rights_iff _ E8 H8 A8).mpr hrp
+    refine {
+      disj := (disj_iff _ _).mpr hdisj
+      wk := hk.1, bk := hk.2
+      pawns := (pawnOK_iff _ _).mpr hp
+      turn := by show 1 - b.turn ≤ 1; omega
+      valid := hv
+      wks := hra1, wqs := hra2, bks := hrp1, bqs := hrp2
+      ep := ?_
+      fm1 := by show 1 ≤ b.fullmove + b.turn; omega
+      fm2 := by show b.fullmove + b.turn < 2147483648; omega
+      hm := by
+        show (if (mkF b src tgt piece castle ep promo epOpp).halfmoveReset = true then 0 else b.halfmove + 1) ≤ 4095
+        split <;> omega }
+    apply epOK_of
+    show epOpp = 0 ∨ _
+    by_cases hne : epOpp = 0
+    · exact Or.inl hne
+    · right; right
+      obtain ⟨e1, e2, e3, e4, e5, e6⟩ := step_ep hwf ha hne
+      rw [hw] at e3 e5 e6
+      simp only [if_true] at e6
+      refine ⟨by show 1 - b.turn ≠ 0; omega, by show epOpp / 8 = 5; omega, ?_, ?_, ?_⟩
+      · show testU (mkMover (mkF b src tgt piece castle ep promo epOpp) b.active).pawns (epOpp - 8) = true
+        rw [show epOpp - 8 = tgt by omega]; exact e1
+      · show testU (_ ||| _) epOpp = false
+        rw [Bits.testU_or, e2, e3]; rfl
+      · show testU (_ ||| _) (epOpp + 8) = false
+        rw [show epOpp + 8 = src by omega, Bits.testU_or, e4, e5]; rfl
+  · -- black moves
+    have hd : dCastle b = 56 := by simp [dCastle, hw]
+    have hk := step_kings hwf ha (by rw [hact]; exact hwf.bk) (by rw [hpas]; exact hwf.wk)
+    have hp := step_pawns ha (by rw [hact]; exact hpw.2) (by rw [hpas]; exact hpw.1)
+    have hra := step_rights_mover ha (by rw [hact, hd]; exact rights_of_wf_b hwf)
+    have hrp := step_rights_other hwf ha (by rw [hpas, hd]; exact rights_of_wf_w hwf)
+    rw [hd] at hra hrp
+    simp only [hw, Bool.false_eq_true, if_false] at hv ⊢
+    rw [hw] at hdisj hk hp hrp
+    obtain ⟨hra1, hra2⟩ := (rights_iff _ E8 H8 A8).mpr hra
+    obtain ⟨hrp1, hrp2⟩ := (rights_iff _ E1 H1 A1).mpr hrp
+    refine {
+      disj := (disj_iff _ _).mpr ⟨hdisj.2.1, hdisj.1, hdisj.2.2.symm⟩
+      wk := hk.2, bk := hk.1
+      pawns := (pawnOK_iff _ _).mpr ⟨hp.2, hp.1⟩
+      turn := by show 1 - b.turn ≤ 1; omega
+      valid := hv
+      wks := hrp1, wqs := hrp2, bks := hra1, bqs := hra2
+      ep := ?_
+      fm1 := by show 1 ≤ b.fullmove + b.turn; omega
+      fm2 := by show b.fullmove + b.turn < 2147483648; omega
+      hm := by
+        show (if (mkF b src tgt piece castle ep promo epOpp).halfmoveReset = true then 0 else b.halfmove + 1) ≤ 4095
+        split <;> omega }
+    apply epOK_of
+    show epOpp = 0 ∨ _
+    by_cases hne : epOpp = 0
+    · exact Or.inl hne
+    · right; left
+      obtain ⟨e1, e2, e3, e4, e5, e6⟩ := step_ep hwf ha hne
+      rw [hw] at e3 e5 e6
+      simp only [Bool.false_eq_true, if_false] at e6
+      refine ⟨by show 1 - b.turn = 0; omega, by show epOpp / 8 = 2; omega, ?_, ?_, ?_⟩
+      · show testU (mkMover (mkF b src tgt piece castle ep promo epOpp) b.active).pawns (epOpp + 8) = true
+        rw [show epOpp + 8 = tgt by omega]; exact e1
+      · show testU (_ ||| _) epOpp = false
+        rw [Bits.testU_or, e2, e3]; rfl
+      · show testU (_ ||| _) (epOpp - 8) = false
+        rw [show epOpp - 8 = src by omega, Bits.testU_or, e4, e5]; rfl
+
 end Inkayaku.MakeWf
